@@ -1,6 +1,12 @@
 import CoapVerif.Model.Retransmit
 /-!
-C06, finding F42: the **observe entrance** of a confirmable request, minimally.
+C06, finding F42 (fixed): the **observe entrance** of a confirmable request, minimally.
+
+The flag `wakes` of `step` is, for today's source, the regenerated fact `Generated.Retransmit.responseAcknowledgesByToken`
+(`wakesToday` below; extractor recogniser "Conn.handle acknowledges a response by its token before dispatching it", fails
+closed): since the repair of F42 `Conn.handle` calls `acknowledgeByResponse` first, which finds the message ID of the request
+that is being written under the response's token (`requestMessageIDs`), removes the pending entry and wakes the writer.
+The text below describes the entrance as it was before the repair (`wakes = false`).
 
 `Client.Observe` / `Conn.DoObserve` → `net/observation: Handler.NewObservation`: the observation is registered under the
 request's token, then `h.cc.WriteMessage(req)` — `udp/client/conn.go: writeMessage`: NSTART slot, pending entry under the
@@ -68,5 +74,11 @@ def step (P : Params) (wakes : Bool) (s : OState) : OEv → OState
     else { s with pend := none, writing := false, ret := some (.ctx, s.now) }
 
 def run (P : Params) (wakes : Bool) (evs : List OEv) : OState := evs.foldl (step P wakes) {}
+
+/-- the flag as today's source has it (regenerated on every run) -/
+def wakesToday : Bool := CoapVerif.Generated.Retransmit.responseAcknowledgesByToken
+
+/-- the entrance as today's source has it -/
+def runToday (P : Params) (evs : List OEv) : OState := run P wakesToday evs
 
 end CoapVerif.Model.RetransmitObserve
